@@ -38,7 +38,49 @@ ReachFrom(n, E, a) ==
                   IN  prev \cup UNION { Succs(E, x) : x \in prev }
        IN  R[n]
 
-Closure(n, E) == UNION { { <<a, b>> : b \in ReachFrom(n, E, a) } : a \in 1..n }
+(* all pairs, by repeated squaring: ceil(log2 n) levels instead of n *)
+Compose(R, S) == UNION { { <<p[1], q[2]>> : q \in { x \in S : x[1] = p[2] } } : p \in R }
+Log2Ceil(n) == CHOOSE k \in 0..n : 2^k >= n /\ (k = 0 \/ 2^(k-1) < n)
+Closure(n, E) ==
+  IF n = 0 \/ E = {} THEN {}
+  ELSE LET F[k \in 0..Log2Ceil(n)] == IF k = 0 THEN E ELSE LET p == F[k-1] IN p \cup Compose(p, p)
+       IN  F[Log2Ceil(n)]
+
+(***************************************************************************)
+(* For larger graphs: Kahn levels decide acyclicity, and for a DAG the      *)
+(* descendants are computed in one pass over a topological order            *)
+(* (children first), which is linear in the size of the result.             *)
+(***************************************************************************)
+KahnOrder(n, E) ==       \* a sequence of the nodes that can be removed source-first; all n of them iff E is acyclic
+  LET F[k \in 0..n] ==
+        IF k = 0 THEN <<>>
+        ELSE LET p == F[k-1]  done == Range(p)
+                 nxt == { f \in (1..n) \ done : Preds(E, f) \subseteq done }
+             IN  IF nxt = {} THEN p
+                 ELSE p \o (LET G[T \in SUBSET nxt] == IF T = {} THEN <<>>
+                                                        ELSE LET m == CHOOSE x \in T : \A y \in T : x <= y
+                                                             IN <<m>> \o G[T \ {m}]
+                            IN G[nxt])
+  IN F[n]
+
+IsDag(n, E) == Len(KahnOrder(n, E)) = n
+
+(* descendants of every node of a DAG, given a source-first order of all its nodes *)
+DescMap(n, E, order) ==
+  LET F[k \in 0..n] ==
+        IF k = 0 THEN [f \in {} |-> {}]
+        ELSE LET prev == F[k-1]
+                 f    == order[n + 1 - k]
+                 kids == Succs(E, f)
+                 d    == kids \cup UNION { prev[c] : c \in kids }
+             IN  [g \in (DOMAIN prev) \cup {f} |-> IF g = f THEN d ELSE prev[g]]
+  IN F[n]
+
+ClosureDag(n, E) ==
+  LET D == DescMap(n, E, KahnOrder(n, E)) IN UNION { { <<a, b>> : b \in D[a] } : a \in 1..n }
+
+(* closure for any relation over 1..n: the cheap way when it is a DAG *)
+ClosureAny(n, E) == IF n > 12 /\ IsDag(n, E) THEN ClosureDag(n, E) ELSE Closure(n, E)
 
 HasPath(C, a, b) == <<a, b>> \in C
 
